@@ -329,7 +329,7 @@ func main() {
 		replay(c, dir)
 	}
 	thorough := c.Thorough()
-	deadline = time.Now().Add(harness.Pick(c, 170*time.Second, 150*time.Minute))
+	deadline = time.Now().Add(harness.Pick(c, 20*time.Minute, 5*time.Hour))
 
 	c.Rule = "one case = (router configuration loaded by the real loader from JSON text, one request) -> Router.GetTCPClient/GetUDPClient; compared with the reference's set of permitted outcomes (client identity | ErrRejected | error) plus resolver-usage rules. " +
 		"Request set per configuration: full product of the reduced values of the 7 request dimensions (protocol{tcp,udp} x server{s0,s1} x user{a,b} x source port{443,8080} x source address{10.1.2.3,11.0.0.1} x target port{443,8080} x target{IP in/out, example.com and example.org with r0 answering in/out}) = 384 requests, " +
@@ -384,9 +384,9 @@ func main() {
 	if thorough {
 		fullKinds = [][]variant{base.net, base.client, base.servers, base.users, base.fromPorts, base.from, base.toPorts, base.dest}
 	} else {
-		// quick: the full product is taken with network and client fixed per
-		// half (their interaction with every kind is in parts 1-3)
-		fullKinds[0], fullKinds[1] = none, none
+		// quick: trimmed vocabulary, client fixed (its interaction with every
+		// kind is in parts 1-3)
+		fullKinds[1] = none
 	}
 	run("single/full-product", false, thorough, func(emit func(*cfgSpec)) { product(fullKinds, emit) })
 	// 5. route lists
